@@ -170,8 +170,9 @@ def dispatch_oracle(ix: Index, scn: dict) -> list[Violation]:
     # replies on the wire, seen by the device (independent decoder / responder)
     seen = [(ev[4]["name"], ev[4]["payload"]) for ev in ix.h if ev[3] == "dev_rx" and ev[4]["name"] in ("PingResponse", "GetTimeResponse", "DisconnectResponse")]
     # client-originated pings are answered by the device with PingResponse, never by the client: no confusion
-    dev_ended = any(ev[3] == "dev_conn_end" for ev in ix.h)
     closed = min(ix.closed_seq.values()) if ix.closed_seq else None
+    # the device side went away by itself (FIN/RST injected there) before the client closed: a reply may be lost on the way
+    dev_ended = any(ev[3] == "dev_conn_end" and (closed is None or ev[0] < closed) for ev in ix.h)
     must = [e for e in expected_replies if closed is None or e[2] < closed]
     for i, (name, val, seq) in enumerate(must):
         if i >= len(seen):
@@ -281,6 +282,11 @@ def gen_dispatch(rng: random.Random) -> dict:
         events.append({"at": {"t": 7.0}, "do": "dev", "act": {"msgs": [{"type": mid, "payload_hex": bad, "name": "#maybe_bad"}], "latency": 0.0}})
     elif r < 0.45:
         events.append({"at": {"t": 7.0}, "do": "dev", "act": {"msgs": [["DisconnectRequest", {}]], "latency": 0.0}})
+    if rng.random() < 0.15:
+        # simultaneous disconnect: the device's own DisconnectRequest arrives while the client's disconnect() is
+        # still waiting for its DisconnectResponse (which the device delays or never sends)
+        device.setdefault("replies", {})["DisconnectRequest"] = pick(rng, [["silent"], [{"msgs": [["DisconnectResponse", {}]], "delay": pick(rng, [0.2, 2.0])}]])
+        events.append({"at": {"on": "op_start", "match": {"actor": "a0", "do": "disconnect"}, "delay": pick(rng, [0.0, 0.002, 0.05])}, "do": "dev", "act": {"msgs": [["DisconnectRequest", {}]], "latency": pick(rng, [0.0, 0.001])}})
     if rng.random() < 0.3:
         # peer requests during the hello/login exchange (behind or in front of the final response, same write)
         login = steps[0]["login"]
